@@ -106,6 +106,19 @@ def run_case(case):
     out['next_output'] = ctxs[-1].output if ctxs else None
     exc2 = sb.exception
     out['exception_after_next'] = None if exc2 is None else type(getattr(exc2, '_actual_value', exc2)).__name__
+    # a result obtained afterwards must be usable: its execution record can be looked up and a runtime assertion about it passes
+    try:
+        from pedal.assertions.runtime import assert_equal
+        S.run('def probe_fn():\n    return 41\n')
+        later = S.call('probe_fn')
+        rec_ctx = sb.get_context(later._actual_context_id)
+        n_before = len(MAIN_REPORT.feedback)
+        fired = bool(assert_equal(later, 41))            # a feedback object is true when it fired
+        out['later_result'] = {'value_ok': later == 41,
+                               'context_is_the_call': len(rec_ctx) == 1 and rec_ctx[0] is sb._context[-1] and 'probe_fn' in str(rec_ctx[0].code),
+                               'assert_equal_passes': not fired, 'new_feedback': [f.label for f in MAIN_REPORT.feedback[n_before:]]}
+    except BaseException as e:
+        out['later_result'] = {'raised': type(e).__name__ + ': ' + str(e)[:120]}
     time.sleep(0.05)
     out['labels_at_end'] = [f.label for f in MAIN_REPORT.feedback if f.category == 'runtime']
     out['patch_depth'] = len(sb._current_patches)
